@@ -80,8 +80,8 @@ def oracle(w, obs, meta, out, counts):
 
     # the order stream's output thread sends an empty snapshot every streaming_timeout while live
     # orders exist: deliver one, as the real thread would, before judging
-    if w.framework.markets.live_orders:
-        w.dispatch(events.CurrentOrdersEvent([]))
+    # (through the real output loop, which decides itself whether anything is sent)
+    w.deliver(None)
     ex = w.exchange
     fw = w.framework
     hashes = {s.name_hash: s for s in fw.strategies}
